@@ -367,6 +367,12 @@ Definition safe (o : op) (m : rmap) : Prop :=
   | ONamespace _ => no_empties m
   | OHash h => hash_lengths_equal h /\ no_plain_clash h m
   | ORawRename _ _ => False            (* unchecked identity rewrite: outside the property's domain *)
+  (* domain of the model, not needed by the proof: CopyMergeMetaDataFieldsFrom and ApplySmPatch write the old name
+     back with SetName, which turns a missing metadata.name into `name: ""`; the model does not distinguish the
+     two, so absorbed resources and patched resources have a name (the loader rejects nameless ones) *)
+  | OAbsorbAll rs => forall r, In r rs -> i_name (cur r) <> ""%string
+  | OSmPatch _ sel _ _ _ _ _ =>
+      forall r, In r m -> existsb (id_same (cur r)) sel = true -> i_name (cur r) <> ""%string
   | _ => True
   end.
 
@@ -635,7 +641,7 @@ Example ex_trace_safe : Inv [] /\ safe_trace ex_ops [].
 Proof.
   split; [apply Inv_nil|].
   cbn [ex_ops safe_trace safe]. split; [exact I|]. intros m1 H1. vm_compute in H1. inv H1.
-  split; [exact I|]. intros m2 H2. vm_compute in H2. inv H2.
+  split; [intros r Hr; cbn in Hr; in_cases Hr; discriminate|]. intros m2 H2. vm_compute in H2. inv H2.
   split.
   { apply uniform_no_prev. intros r Hr. cbn in Hr. in_cases Hr; reflexivity. }
   intros m3 H3. vm_compute in H3. inv H3.
